@@ -100,6 +100,9 @@ func c04cfg(name string) (*vHistCfg, int, int) {
 // versions are unavailable and every later version is unchanged in contents, hash and proofs.
 func C04_Prune() {
 	cfg, maxV, maxW := c04cfg("C04_Prune")
+	if vTier() == "thorough" {
+		cfg.thresh = []int{0, 101} // (three thresholds with four versions did not finish within 50 minutes)
+	}
 	h := vStartHist(cfg)
 	h.vBuildVersions(maxV, maxW)
 	h.doPrune()
